@@ -18,7 +18,7 @@ from .. import common as C
 from . import _an as A
 
 PROP = "C05"
-GEN_REGIONS = ["CoreKernels", "Analysis", "Utils", "CudaKernels", "LpsdCore"]
+GEN_REGIONS = ["CoreKernels", "Analysis", "Utils", "CudaKernels", "LpsdCore", "NumpyKernels"]
 THEOREMS = {
     # the request arithmetic of compute_single_bin as translated each run IS the model (segmentation) / the requested frequency (omega)
     "SpecKitV.Props.AnalysisGen": ["gen_single_bin_seg_eq_model", "gen_single_bin_omega_eq"],
@@ -41,7 +41,12 @@ THEOREMS = {
         "LpsdCoreGen.lpsdWindow_kaiser_dft_even", "LpsdCoreGen.lpsdWindow_other", "LpsdCoreGen.gen_single_window",
         "LpsdCoreGen.gen_single_bin_section_eq_model", "LpsdCoreGen.gen_single_bin_eq_lpsdCore", "LpsdCoreGen.gen_plan_validate_arrays",
         "LpsdCoreGen.gen_plan_validate_eq_model", "LpsdCoreGen.gen_plan_validate_accepts_safe", "LpsdCoreGen.gen_plan_band_eq_model",
-        "LpsdCoreGen.gen_plan_band_none"],
+        "LpsdCoreGen.gen_plan_band_none",
+        # all three backends concrete: the `_np` names are the translated NumPy fallbacks (Gen/NumpyKernels, default _chunk); no kernel-agreement
+        # hypothesis left
+        "LpsdCoreGen.dispatchWith_genNp6", "LpsdCoreGen.dispatchWith_genFamilyAll", "LpsdCoreGen.gen_lpsd_core_eq_model_all_backends",
+        "LpsdCoreGen.gen_lpsd_core_eq_ref_all_backends_cross", "LpsdCoreGen.gen_lpsd_core_eq_ref_all_backends_auto",
+        "LpsdCoreGen.gen_single_bin_section_all_backends"],
     "SpecKitV.Props.C05": ["lpsdCore_eq_ref_cross", "lpsdCore_eq_ref_auto", "lpsdCore_bin_local", "lpsdCore_band", "winSums_spec", "lpsdCore_single",
                            "lpsdCore_order1_add_line_auto", "lpsdCore_order1_add_line_cross"],
 }
@@ -61,8 +66,9 @@ CONTRACTS = [
     "np.kaiser(M, beta) / scipy.signal.windows.kaiser(M, beta) = I0(beta*sqrt(1-((n-(M-1)/2)/((M-1)/2))^2))/I0(beta), n < M (NpLC.kaiser; used only in "
     "lpsdWindow_kaiser*); the window callable itself, _build_Q and _select_backend are PARAMETERS of the translated code (NpLC.WinFunc, functions)",
     "the 18 kernel entry points are fields of NpLC.KernelFamily named as in the source; which names serve which backend string is NpLC.KernelFamily.pick "
-    "('cuda' -> *_cuda, 'numba' -> plain, otherwise *_np); the NumPy fallbacks enter the theorems as an abstract Kernels6 with the hypothesis "
-    "Agree6 (they agree with the translated Numba kernels on calls with >= 1 segment: C01's business)",
+    "('cuda' -> *_cuda, 'numba' -> plain, otherwise *_np); in the *_all_backends theorems all 18 names are translated code: the "
+    "`_np` names are the translated NumPy fallbacks (Gen/NumpyKernels) called with the default `_chunk` of their Python signature (taken from the generated "
+    "`*_chunk_default`) and arbitrary np.empty contents; the older theorems keep the fallbacks abstract (Kernels6 + Agree6)",
     "a raise is modelled by a flag: every translated function returns (raised, value); values after a raise are unspecified in Python and are "
     "whatever the straight-line code computes here; time.perf_counter() and everything derived from it is ()",
 ]
